@@ -137,6 +137,31 @@ def _subst_text(text, env_items):
     return norm(tree)
 
 
+class _Simp(ast.NodeTransformer):
+    """Resolve conditional expressions whose test is decided by the known facts."""
+
+    def __init__(self, facts):
+        self.facts = dict(facts)
+
+    def visit_IfExp(self, node):
+        t, tr = canon(node.test, True)
+        if t in self.facts:
+            return self.visit(node.body if self.facts[t] == tr else node.orelse)
+        return self.generic_visit(node)
+
+
+def simplify(text: str, facts) -> str:
+    if ' if ' not in text:
+        return text
+    try:
+        tree = ast.parse(text, mode='eval').body
+    except SyntaxError:
+        return text
+    tree = _Simp(facts).visit(tree)
+    ast.fix_missing_locations(tree)
+    return norm(tree)
+
+
 class Sym(paths.Domain):
     INIT = (frozenset(), frozenset(), None)
 
@@ -156,9 +181,11 @@ class Sym(paths.Domain):
         return extra
 
     # --- helpers
-    def expr(self, e, store: dict) -> str:
+    def expr(self, e, store: dict, facts=None) -> str:
         if e is None:
             return 'None'
+        if facts:
+            return simplify(self.expr(e, store), facts)
         if self.substitute:
             used = {x.id for x in ast.walk(e) if isinstance(x, ast.Name)}
             env = {k: v for k, v in store.items() if k in used and '@' not in v and k not in self.no_subst}
@@ -189,7 +216,7 @@ class Sym(paths.Domain):
                 vals = {t: vt or f'{t}@{line}'} if t else {}
             elif len(tg) == 1:
                 t = dotted(tg[0])
-                vals = {t: self.expr(val, sd)} if t and val is not None else {}
+                vals = {t: self.expr(val, sd, facts)} if t and val is not None else {}
             else:
                 vals = {dotted(t): f'{dotted(t)}@{line}' for t in tg if dotted(t)}
             assigned = {dotted(t) for t in tg if dotted(t)}
@@ -345,3 +372,60 @@ def object_locals(fn) -> set:
         if isinstance(n, ast.Subscript) and isinstance(n.ctx, (ast.Store, ast.Del)) and isinstance(n.value, ast.Name):
             out.add(n.value.id)
     return out
+
+
+# --------------------------------------------------------------------------- integer inequalities
+def ineq(test, truth: bool = True):
+    """Normalise an integer comparison to a linear form L meaning `L >= 0` (or ('==', L) for equality).
+    `a > b` -> a - b - 1 >= 0 ; `a >= b` -> a - b >= 0 ; `a < b` -> b - a - 1 >= 0 ; `a <= b` -> b - a >= 0 ;
+    `not t` / truth=False negate.  Returns None when the test is not a two-sided integer comparison."""
+    if isinstance(test, str):
+        try:
+            test = ast.parse(test, mode='eval').body
+        except SyntaxError:
+            return None
+    if isinstance(test, ast.UnaryOp) and isinstance(test.op, ast.Not):
+        return ineq(test.operand, not truth)
+    if not (isinstance(test, ast.Compare) and len(test.ops) == 1):
+        return None
+    a, b, op = lin(test.left), lin(test.comparators[0]), test.ops[0]
+    if a is None or b is None:
+        return None
+
+    def sub(x, y, c=0):
+        out = dict(x)
+        for k, v in y.items():
+            out[k] = out.get(k, 0) - v
+        out[''] = out.get('', 0) + c
+        return {k: v for k, v in out.items() if v or k == ''}
+    if isinstance(op, (ast.Eq, ast.NotEq)):
+        d = sub(a, b)
+        # orient: first non-constant atom positive
+        keys = sorted(k for k in d if k)
+        if keys and d[keys[0]] < 0:
+            d = {k: -v for k, v in d.items()}
+        eq = isinstance(op, ast.Eq)
+        return ('==' if eq == truth else '!=', d)
+    if isinstance(op, ast.Gt):
+        pos = sub(a, b, -1)
+    elif isinstance(op, ast.GtE):
+        pos = sub(a, b)
+    elif isinstance(op, ast.Lt):
+        pos = sub(b, a, -1)
+    elif isinstance(op, ast.LtE):
+        pos = sub(b, a)
+    else:
+        return None
+    if truth:
+        return ('>=0', pos)
+    # not (L >= 0)  <=>  -L - 1 >= 0
+    neg = {k: -v for k, v in pos.items()}
+    neg[''] = neg.get('', 0) - 1
+    return ('>=0', neg)
+
+
+def same_ineq(a, b) -> bool:
+    """Two tests (nodes, texts or results of ineq) denote the same integer constraint."""
+    a = a if isinstance(a, tuple) else ineq(a)
+    b = b if isinstance(b, tuple) else ineq(b)
+    return a is not None and b is not None and a[0] == b[0] and lin_eq(a[1], b[1])
